@@ -66,3 +66,43 @@ package tsdb
 //@   loop 1 invariant forall(k, 0, len(result), result[k] != nil && famStart(result[k]) <= timeRange.End && timeRange.Start <= famEnd(result[k]))
 //@   loop 1 invariant[every_family_that_overlaps_the_query_range_is_returned] forall(i, 0, rangeindex + 1, (atoiOK(familyNames[i]) && famStart(famOf(s, atoiVal(familyNames[i]))) <= timeRange.End && timeRange.Start <= famEnd(famOf(s, atoiVal(familyNames[i])))) ==> exists(k, 0, len(result), result[k] == cast(famOf(s, atoiVal(familyNames[i])), "DataFamily")))
 //@ end
+
+//@ # ---- family lookup of a write (C13): the family a timestamp is written to is the one whose time range contains it.
+//@ # sk(s): calculator kind of the segment's interval; the families a segment has cached are those of the placement rule
+//@ pure sk(i timeutil.Interval) int = ite(int64(i) >= 3600000, 3, ite(int64(i) >= 300000, 2, 1))
+//@ predicate famMapOK(s *segment) bool = s.families != nil && all(ft, "int", has(s.families, ft) ==> (s.families[ft] != nil && famStart(s.families[ft]) == timeutil.kFamilyStart(sk(s.interval), s.baseTime, ft) && famEnd(s.families[ft]) == timeutil.kFamilyEnd(sk(s.interval), famStart(s.families[ft]))))
+//@ func newDataFamilyFunc
+//@   modifies nothing
+//@   fresh
+//@   ensures result != nil && famStart(result) == timeRange.Start && famEnd(result) == timeRange.End
+//@ end
+//@ func github.com/lindb/lindb/kv.Store.GetFamily
+//@   norefine
+//@   modifies nothing
+//@ end
+//@ func github.com/lindb/lindb/kv.Store.CreateFamily
+//@   norefine
+//@   modifies nothing
+//@ end
+//@ extern func strconv.Itoa
+//@   modifies nothing
+//@ end
+//@ func segment.initDataFamily
+//@   prop C13
+//@   arith math
+//@   uses k_contain k_compose
+//@   requires s.families != nil && timeutil.calMs(s.baseTime) && familyTime >= 0 && familyTime < 1000000 && timeutil.isFamilyStart(sk(s.interval), timeutil.kFamilyStart(sk(s.interval), s.baseTime, familyTime))
+//@   modifies s.families[*]
+//@   ensures[the_family_gets_the_range_of_the_placement_rule] result != nil && famStart(result) == timeutil.kFamilyStart(sk(s.interval), s.baseTime, familyTime) && famEnd(result) == timeutil.kFamilyEnd(sk(s.interval), famStart(result))
+//@   ensures[it_is_cached_under_its_family_time] has(s.families, familyTime) && s.families[familyTime] == result && all(ft, "int", ft != familyTime ==> (has(s.families, ft) == old(has(s.families, ft)) && s.families[ft] == old(s.families[ft])))
+//@ end
+//@ func segment.GetOrCreateDataFamily
+//@   prop C13
+//@   arith math
+//@   timeout 180
+//@   uses k_contain k_compose
+//@   requires timeutil.tsOK(timestamp) && s.kvStore != nil && famMapOK(s)
+//@   modifies s.families[*]
+//@   ensures[a_timestamp_is_written_to_the_family_whose_range_contains_it] result1 == nil ==> (result0 != nil && famStart(result0) <= timestamp && timestamp <= famEnd(result0))
+//@   ensures[the_cache_keeps_its_shape] famMapOK(s)
+//@ end
